@@ -488,6 +488,12 @@ func ruleSearchOrdering(r *Run, rule string, k *storeKind) {
 		if ia, ok := in.(*ssa.IndexAddr); ok && c.S(ia.X) == sls && isRangeIndex(ia.Index) {
 			coverS = true
 		}
+		// for i := 0; i < len(segments); i++
+		if ia, ok := in.(*ssa.IndexAddr); ok && c.S(ia.X) == sls && !isRangeIndex(ia.Index) && isAllIndex(ia.Index) {
+			if b := countedLoopBound(ia.Index.(*ssa.Phi)); b != nil && c.S(b) == "len("+sls+")" {
+				coverS = true
+			}
+		}
 	})
 	r.Check(coverS, rule, "search:all-segments", site, "every segment of the snapshot is searched", "the segment loop does not range over the whole snapshot")
 	// the final cut: merge → sort → truncate to k
